@@ -129,6 +129,14 @@ def check(run, terrs):
         run.obligation(f"known-finding-still-reproduces.{fid}", ok,
                        "" if ok else f"canonical input {F.CANONICAL[fid]!r} no longer shows the finding: "
                                      "remove it from props/c20.meta.json")
+    for c, o in zip(cases, outs):
+        if c.get("fixed"):
+            want = F.FIXED[c["fixed"]][1]
+            got = sorted({("diag" if "diag" in f else "ok" if "ok" in f else "panic")
+                          for f in (o or {}).get("fmt", {}).values()})
+            run.obligation(f"fixed-finding-stays-fixed.{c['fixed']}", got == [want],
+                           f"{c['src']!r}: expected {want} for every indent, got {got}: "
+                           f"{json.dumps((o or {}).get('fmt'))[:300]}")
     cli_test_mode(run, failures)
     for c, o in zip(cases, outs):
         if len(run.samples) >= 8:
